@@ -761,6 +761,7 @@ type DVGapField struct {
 type DVGapsParams struct {
 	N      int
 	Fields []DVGapField
+	Tail   bool // every document also carries the DV-less field "zzz" with two terms in every document: the last term of the last field has N hits and no doc values follow it
 }
 
 func GenDVGaps(t *rapid.T) DVGapsParams {
@@ -813,6 +814,11 @@ func (p DVGapsParams) Batch(sc *Scenario) Batch {
 				}
 				b[i].Fields = append(b[i].Fields, fd)
 			}
+		}
+	}
+	if p.Tail {
+		for i := range b {
+			b[i].Fields = append(b[i].Fields, Field{Name: "zzz", Len: 2, Terms: []Term{{T: "first", Freq: 1}, {T: "zzzlast", Freq: 1}}})
 		}
 	}
 	return b
